@@ -625,9 +625,15 @@ func (c *Compiler) ExpandModules() (err error) {
 	//Process includes
 	for _, module := range c.modules {
 		r := module.GetModule()
-		c.VerifyModuleIncludes(r, module.GetSubmodules())
-		for _, s := range module.GetSubmodules() {
-			c.ProcessSubmoduleIncludes(s, module.GetSubmodules())
+		order := c.VerifyModuleIncludes(r, module.GetSubmodules())
+		// A submodule inherits the imports of the submodules it includes.
+		// Handle included submodules first, so that what is inherited
+		// through a chain of includes does not depend on the iteration
+		// order of the submodule map.
+		for _, name := range order {
+			if s, ok := module.GetSubmodules()[name]; ok {
+				c.ProcessSubmoduleIncludes(s, module.GetSubmodules())
+			}
 		}
 		c.ProcessModuleIncludes(r, module.GetSubmodules())
 	}
@@ -711,7 +717,10 @@ func (c *Compiler) BuildModules() (modules map[string]schema.Model, err error) {
 	return modules, nil
 }
 
-func (c *Compiler) VerifyModuleIncludes(m parse.Node, submodules map[string]parse.Node) {
+// VerifyModuleIncludes checks the include graph of a module for cycles and
+// returns the (sub)module names with included submodules before the
+// (sub)modules that include them.
+func (c *Compiler) VerifyModuleIncludes(m parse.Node, submodules map[string]parse.Node) []string {
 	g := tsort.New()
 	for _, i := range m.ChildrenByType(parse.NodeInclude) {
 		g.AddEdge(m.Name(), i.Name())
@@ -721,10 +730,11 @@ func (c *Compiler) VerifyModuleIncludes(m parse.Node, submodules map[string]pars
 			g.AddEdge(s.Name(), i.Name())
 		}
 	}
-	_, err := g.Sort()
+	order, err := g.Sort()
 	if err != nil {
 		c.error(m, err)
 	}
+	return order
 }
 
 func (c *Compiler) ProcessSubmoduleIncludes(m parse.Node, submodules map[string]parse.Node) {
